@@ -1,26 +1,66 @@
 """Static configuration: feature sets, units, and which units / dependencies decide each property."""
 
-CFGS = {
-    "default": ["adhoccounting", "variablelist", "frontend"],
-    "nofrontend": ["adhoccounting", "variablelist"],
-}
+def _cfgs():
+    out = {}
+    for cname, c in (("n", []), ("p", ["adhoccounting"]), ("pm", ["adhoccounting", "adhoccountmodels"])):
+        for vname, v in (("", []), ("v", ["variablelist"])):
+            for fname, f in (("", []), ("f", ["frontend"])):
+                out["c_" + cname + vname + fname] = c + v + f
+    return out
+
+
+# the 12 combinations of {no counting, paths, paths+models} x {variablelist} x {frontend}; "default" == c_pvf
+CFGS = _cfgs()
+CFGS["default"] = ["adhoccounting", "variablelist", "frontend"]
+CFGS["nofrontend"] = ["adhoccounting", "variablelist"]
+ALL12 = sorted(k for k in CFGS if k.startswith("c_"))
 
 UNITS = {
     "bdd": dict(vspec="bdd.vspec"),
 }
 
 COMMON_ASSUME = [
-    "Verus 0.2026.09.13 + bundled Z3 + rustc are trusted; one verifier unsoundness (conditional move of a &mut binder) is avoided by the lowering and guarded by reachability probes",
-    "vx rules D (drop docs/derives/logging), R (RefCell made explicit), O (outlined std expressions with textbook ensures), L/P (iterator chains and reference patterns lowered to index loops) are assumed meaning-preserving",
-    "derived Hash/Eq of BddNode, Term, Var and tuple keys obey vstd's obeys_key_model (axioms in speclib/bdd_spec.rs)",
-    "derived PartialOrd on Var is the order of the wrapped usize (PartialOrdSpecImpl in speclib)",
-    "64-bit target; Vec growth never exhausts memory; stack overflow of recursive functions not modelled",
-    "public fields Bdd.nodes / Adf.ac / Adf.bdd are not mutated behind the API",
+    "Verus 0.2026.09.13 + bundled Z3 + rustc are trusted; one verifier unsoundness (conditional move of a &mut binder) is avoided by the lowering and guarded by reachability probes at every program point",
+    "vx rules (DESIGN 3.2): D drop docs/derives/logging (log arguments unevaluated), R RefCell made explicit (&self methods that fill the count table become &mut self; the dynamic borrow flag is not modelled), O outlined std expressions with textbook ensures, L/P iterator chains and reference patterns lowered to index loops, T trait-impl bodies as inherent fns, G ghost tokens - assumed meaning-preserving",
+    "derived Hash/Eq of BddNode, Term, Var and tuple keys obey vstd's obeys_key_model (axioms in speclib/bdd_spec.rs); derived PartialOrd on Var is the order of the wrapped usize",
+    "64-bit target; Vec growth never exhausts memory; stack overflow of the recursive functions is not modelled",
+    "public fields Bdd.nodes / Adf.ac / Adf.bdd are not mutated behind the API; callers of the public Bdd::node respect its ordering precondition (all in-crate callers are verified to)",
 ]
+BDD_QUICK = [("bdd", "default")]
+BDD_PROBES = [("bdd", "default")]
 
 PROPS = {
-    "C06": dict(units=[("bdd", "nofrontend")], depends=[], assumptions=COMMON_ASSUME,
-                explanation="wf() (reduced, ordered, duplicate-free node table, consistent unique table and memo tables) is required and re-established by every diagram-building operation; lemma_canon proves equal function => equal handle"),
-    "C07": dict(units=[("bdd", "nofrontend")], depends=["C06"], assumptions=COMMON_ASSUME,
-                explanation="every operation's postcondition is an equation between the denotation of the result and the named Boolean function of the operands' denotations; ext() (append-only) in every postcondition"),
+    "C06": dict(
+        units=dict(quick=BDD_QUICK, thorough=[("bdd", c) for c in ALL12]), probes=dict(quick=BDD_PROBES, thorough=BDD_PROBES), depends=[],
+        assumptions=COMMON_ASSUME,
+        explanation="wf_core() - node table reduced and ordered, unique table exact (hence no duplicate nodes), memo tables hold only correct entries - is required and re-established by every diagram-building operation (new, variable, not/and/or/imp/iff/xor, restrict, if_then_else, node, From<Vec<BddNode>>, fix_import); sp::lemma_canon proves equal function => equal handle on every such table, so a handle is TOP/BOT iff the function is valid/unsatisfiable",
+        not_decided=["bridge conversion loop (Adf::from_biodivine_vector) is covered under C09 when that unit is present", "recv() pushes nodes received from the channel unchecked: canonicity of the mirror follows from the producer's (C19 mirror lemma), not from a local contract"]),
+    "C07": dict(
+        units=dict(quick=BDD_QUICK, thorough=[("bdd", c) for c in ALL12]), probes=dict(quick=BDD_PROBES, thorough=BDD_PROBES), depends=["C06"],
+        assumptions=COMMON_ASSUME,
+        explanation="every operation's postcondition is an equation den(result) == <named Boolean function>(den(operands)) over closed spec functions bf_*; restrict is the cofactor bf_restrict; ext(old.nodes, nodes) (append-only) in every postcondition plus lemma_ext_den gives: no operation changes the function of a previously issued handle"),
+    "C11": dict(
+        units=dict(quick=BDD_QUICK, thorough=[("bdd", c) for c in ALL12]), probes=dict(quick=BDD_PROBES, thorough=BDD_PROBES), depends=["C06", "C07"],
+        assumptions=COMMON_ASSUME + ["no selected function iterates over a HashMap/HashSet (iteration order is the only nondeterminism in safe single-threaded Rust besides the RNG)"],
+        explanation="memo tables (ite/restrict/count) are part of wf(): an entry must be correct to be in a table, every insert site carries the assertion that the inserted entry is; every postcondition determines den(result) as a function of den(operands) only, and ext() keeps issued handles stable; the &self count queries are proved to leave every other field unchanged (same_but_counts)",
+        not_decided=["order of models produced by the nogood search across histories (determinism argument only)", "ADF-level answers: inherited from C01-C03 contracts when those units are present"]),
+    "C12": dict(
+        units=dict(quick=[("bdd", "default"), ("bdd", "c_n"), ("bdd", "c_pm")], thorough=[("bdd", "default")] + [("bdd", c) for c in ALL12]), depends=[], differential=True,
+        assumptions=COMMON_ASSUME,
+        explanation="the contracts of C06/C07/C13/C14 are feature-independent statements about den/supp/paths/depth/models; each cfg-split body is verified against the same postconditions under each feature combination (vx evaluates #[cfg] exactly as rustc does). An obligation that fails under some configuration but is discharged (or does not exist) under the default configuration is a C12 violation; obligations failing in all configurations belong to their owning property. Documented exception: memoised model counting with adhoccounting but without adhoccountmodels (models_memo_exact() == false) is excluded, not proved",
+        not_decided=["ADF-level semantics are verified against the bdd contracts, which are identical in all configurations (run under default features)"]),
+    "C13": dict(
+        units=dict(quick=BDD_QUICK, thorough=[("bdd", c) for c in ALL12]), probes=dict(quick=BDD_PROBES, thorough=BDD_PROBES), depends=["C06"],
+        assumptions=COMMON_ASSUME + ["machine arithmetic: the usize counter arithmetic is NOT assumed to be exact - each overflow site is a failing obligation listed as an open known finding (F6-*); all other postconditions of those functions are proved past them, i.e. under no-overflow at those sites"],
+        explanation="count table entries equal paths_spec / depth_spec / models_spec (standard recurrences over the DAG) for every handle (wf_counts); var_deps equal supp (wf_deps) and lemma_supp_indep ties supp to semantic dependence; paths, max_depth, models, modelcount_naive, modelcount_memoization return the spec values (naive == memoised because both equal the spec); passive/active_var_impact count exactly the dependencies; ModelCounts::more_models <=> models >= cmodels",
+        not_decided=["the #sat ratio lemma (models : counter-models == satisfying : falsifying assignments) and the path-cube contract of Bdd::interpretations are not yet under contract"]),
+    "C14": dict(
+        units=dict(quick=BDD_QUICK, thorough=[("bdd", c) for c in ALL12]), probes=dict(quick=BDD_PROBES, thorough=BDD_PROBES), depends=["C06"],
+        assumptions=COMMON_ASSUME + ["serde's derive round-trips the non-skipped fields (nodes, cache via vectorize, ac, ordering) to equal values and default-initialises skipped ones (wf_imported() is exactly that state)"],
+        explanation="From<Vec<BddNode>> on a well-formed duplicate-free node list rebuilds a store with r.nodes@ == input (identical numbering) and wf(); fix_import turns the state serde leaves (wf_imported) into the full wf() without touching nodes or the unique table; answers then equal the original's because every answer is a function of den (C07/C11)",
+        not_decided=["'the CLI never overwrites an existing export file' is a file-system effect in bin/src/main.rs - no contract within reach", "Adf::from((ordering,bdd,ac)) field-wise construction is covered with the adf unit"]),
+    "C19": dict(
+        units=dict(quick=BDD_QUICK, thorough=[("bdd", c) for c in ALL12 if c.endswith("f")]), probes=dict(quick=BDD_PROBES, thorough=BDD_PROBES), depends=[],
+        assumptions=COMMON_ASSUME + ["crossbeam_channel is modelled by an opaque stub with a prophetic message sequence msg(chan,k): FIFO, lossless, duplication-free for one Sender and one Receiver on a fresh channel; send/try_recv are atomic (speclib/stubs_crossbeam.rs) - ASSUMED, no thread interleaving is explored", "set_sender/set_receiver on a non-fresh store (the documented 'Attention' cases) are outside the precondition"],
+        explanation="producer invariant (part of wf(), preserved by node and hence by every operation): nodes[k+2] == msg(c,k) for all k < sent and len == sent+2; receiver invariant (recv loop): nodes[k+2] == msg(c,k) for k < recvd, len == recvd+2, every received node forwarded in order when a sender is present (relay_inv); recv returns true iff term < final len; both invariants are local to one party and mention only msg, so every interleaving of atomic channel operations preserves both; lemma_mirror / lemma_relay compose them"),
 }
